@@ -320,6 +320,12 @@ fn directed(sh: &mut Shard, tier: Tier) {
             }
         }
     }
+    // escape sequences of other languages inside string literals (as a value, printed, measured, indexed)
+    for body in super::c08::foreign_escape_bodies() {
+        for text in [format!("\"{body}\""), format!("print(\"{body}\")"), format!("lengte(\"{body}\") + 1"), format!("\"{body}\"[0]")] {
+            case(sh, "foreign-escapes", &text, b);
+        }
+    }
     // size ladders across the 8- and 16-bit limits
     let kmax = if tier == Tier::Quick { 17 } else { 18 };
     for k in 0..=kmax {
